@@ -146,130 +146,157 @@ func C13(e *simkern.Env) {
 			resp := httpw.Post(inst, "/u_int", pipew.RequestBytes(op), as, map[string]string{"VGI-Session": token})
 			return hx.Rec.Get(n).SessionSeen != 0, resp
 		}
-		sim.Spawn("adversary", func() {
-			rounds := 3 + tp.Draw(5)
-			var pool []*tokens
-			for r := 0; r < rounds && !e.Violated(); r++ {
-				sim.Y("round")
-				a := c13Idents[tp.Draw(len(c13Idents))]
-				tk := mint(a)
-				if tk == nil {
-					return
-				}
-				pool = append(pool, tk)
-				// sometimes warm the cache with the owner's own continuation first
-				if tp.Bool(1, 2) {
-					if ok, resp := cont(cl.Inst[0], tk, tk.cursor, tk.call, a); !ok {
-						e.Violate("owner-refused", "stream-token", "owner %s refused with its own tokens: %s", a, resp.ErrText())
+		// one or two adversary tasks: with two, requests of different identities
+		// are inside the server (minting, sealing and opening tokens) at once
+		nAdv := 1 + tp.Draw(2)
+		e.Knob("adversaries", nAdv)
+		for ai := 0; ai < nAdv; ai++ {
+			sim.Spawn(fmt.Sprintf("adversary%d", ai), func() {
+				rounds := 3 + tp.Draw(5)
+				var pool []*tokens
+				for r := 0; r < rounds && !e.Violated(); r++ {
+					sim.Y("round")
+					a := c13Idents[tp.Draw(len(c13Idents))]
+					tk := mint(a)
+					if tk == nil {
 						return
 					}
-					sim.Probe("cache-warmed-by-owner")
-				}
-				b := c13Idents[tp.Draw(len(c13Idents))]
-				if nb := c13Neighbours(a); len(nb) > 0 && tp.Bool(1, 2) {
-					// a near miss of the owner: what a normalising comparison would confuse
-					b = nb[tp.Draw(len(nb))]
-					sim.Probe("near-miss-identity")
-				}
-				same := a == b
-				fresh := cl.Inst[0]
-				restarted := false
-				if tp.Bool(1, 3) {
-					// judge on a freshly restarted image too ("never on who used the server before")
-					restarted = true
-				}
-				switch tp.Draw(4) {
-				case 0, 1: // stream tokens of A presented by B on the cached instance and on the twin
-					sim.Fault("cross-identity-stream-token")
-					okMain, rm := cont(cl.Inst[0], tk, tk.cursor, tk.call, b)
-					okTwin, rt := cont(cl.Twin, tk, tk.cursor, tk.call, b)
-					okFresh := okTwin
-					if restarted {
-						cl.Restart(0)
-						fresh = cl.Inst[0]
-						okFresh, _ = cont(fresh, tk, tk.cursor, tk.call, b)
-						sim.Fault("instance-restart")
-					}
-					site := "stream-token"
-					sample = append(sample, fmt.Sprintf("A=%s B=%s stream main=%v twin=%v", a, b, okMain, okTwin))
-					if rm.Panicked != nil || rt.Panicked != nil {
-						e.Violate("panic", site, "panic: %v %v", rm.Panicked, rt.Panicked)
-						return
-					}
-					if okMain != okTwin || okMain != okFresh {
-						e.Violate("decision-depends-on-history", site, "tokens of %s presented by %s: cached instance=%v, cache-less twin=%v, fresh instance=%v", a, b, okMain, okTwin, okFresh)
-						return
-					}
-					if okMain != same {
-						e.Violate("identity-binding", site, "tokens of %s presented by %s: accepted=%v, expected %v (status %d)", a, b, okMain, same, rm.Status)
-						return
-					}
-				case 2: // sticky session token of A presented by B
-					sim.Fault("cross-identity-session-token")
-					ok, resp := useSession(cl.Inst[0], tk.session, b)
-					sample = append(sample, fmt.Sprintf("A=%s B=%s session accepted=%v", a, b, ok))
-					if resp.Panicked != nil {
-						e.Violate("panic", "session-token", "panic: %v", resp.Panicked)
-						return
-					}
-					if ok != same {
-						e.Violate("identity-binding", "session-token", "session of %s presented by %s: resolved=%v, expected %v", a, b, ok, same)
-						return
-					}
-				case 3: // kind confusion, presented by the rightful owner
-					sim.Fault("kind-confusion")
-					type kc struct {
-						name         string
-						cursor, call string
-					}
-					variants := []kc{
-						{"call-as-cursor", tk.call, tk.call},
-						{"cursor-as-call", tk.cursor, tk.cursor},
-						{"session-as-cursor", tk.session, tk.call},
-						{"session-as-call", tk.cursor, tk.session},
-						// the same, with the leading version byte rewritten to the
-						// one the slot expects (the version byte is not sealed)
-						{"cursor-retagged-as-call", tk.cursor, retag(tk.cursor, tk.call)},
-						{"call-retagged-as-cursor", retag(tk.call, tk.cursor), tk.call},
-					}
-					v := variants[tp.Draw(len(variants))]
-					inst := cl.Twin // the call slot is only consulted without a cache hit
-					if v.name == "call-as-cursor" || v.name == "session-as-cursor" || v.name == "call-retagged-as-cursor" {
-						inst = cl.Inst[0]
-					}
-					ok, resp := cont(inst, tk, v.cursor, v.call, a)
-					sample = append(sample, fmt.Sprintf("A=%s %s accepted=%v", a, v.name, ok))
-					if resp.Panicked != nil {
-						e.Violate("panic", "kind/"+v.name, "panic: %v", resp.Panicked)
-						return
-					}
-					if ok {
-						e.Violate("kind-confusion", "kind/"+v.name, "%s accepted for owner %s (status %d)", v.name, a, resp.Status)
-						return
-					}
-					// a cursor or call token in the VGI-Session header
-					other := tk.cursor
+					pool = append(pool, tk)
+					// sometimes warm the cache with the owner's own continuation first
 					if tp.Bool(1, 2) {
-						other = tk.call
+						if ok, resp := cont(cl.Inst[0], tk, tk.cursor, tk.call, a); !ok {
+							e.Violate("owner-refused", "stream-token", "owner %s refused with its own tokens: %s", a, resp.ErrText())
+							return
+						}
+						sim.Probe("cache-warmed-by-owner")
 					}
-					if ok2, r2 := useSession(cl.Inst[0], other, a); ok2 || r2.Panicked != nil {
-						e.Violate("kind-confusion", "kind/stream-token-as-session", "a stream token resolved a sticky session for %s (panic=%v)", a, r2.Panicked)
-						return
+					b := c13Idents[tp.Draw(len(c13Idents))]
+					if nb := c13Neighbours(a); len(nb) > 0 && tp.Bool(1, 2) {
+						// a near miss of the owner: what a normalising comparison would confuse
+						b = nb[tp.Draw(len(nb))]
+						sim.Probe("near-miss-identity")
+					}
+					same := a == b
+					fresh := cl.Inst[0]
+					restarted := false
+					if nAdv == 1 && tp.Bool(1, 3) {
+						// judge on a freshly restarted image too ("never on who used the server before")
+						restarted = true
+					}
+					if cacheMain == 1 && nAdv == 1 && tp.Bool(1, 3) && !e.Violated() {
+						// a one-entry cache: another identity's /init in between has
+						// certainly pushed the owner's call out, so the server has to
+						// consult the call token again — and the one presented here was
+						// minted for the other identity
+						o := c13Idents[tp.Draw(len(c13Idents))]
+						if o != a {
+							if tk2 := mint(o); tk2 != nil {
+								sim.Fault("evicted-then-foreign-call-token")
+								ok, resp := cont(cl.Inst[0], tk, tk.cursor, tk2.call, a)
+								if resp.Panicked != nil {
+									e.Violate("panic", "stream-token", "panic: %v", resp.Panicked)
+									return
+								}
+								if ok {
+									e.Violate("identity-binding", "call-token-after-eviction", "cursor of %s with the call token of %s's stream, presented by %s after its call had been evicted from a one-entry cache: accepted (status %d)", a, o, a, resp.Status)
+									return
+								}
+							}
+						}
+					}
+					switch tp.Draw(4) {
+					case 0, 1: // stream tokens of A presented by B on the cached instance and on the twin
+						sim.Fault("cross-identity-stream-token")
+						okMain, rm := cont(cl.Inst[0], tk, tk.cursor, tk.call, b)
+						okTwin, rt := cont(cl.Twin, tk, tk.cursor, tk.call, b)
+						okFresh := okTwin
+						if restarted {
+							cl.Restart(0)
+							fresh = cl.Inst[0]
+							okFresh, _ = cont(fresh, tk, tk.cursor, tk.call, b)
+							sim.Fault("instance-restart")
+						}
+						site := "stream-token"
+						sample = append(sample, fmt.Sprintf("A=%s B=%s stream main=%v twin=%v", a, b, okMain, okTwin))
+						if rm.Panicked != nil || rt.Panicked != nil {
+							e.Violate("panic", site, "panic: %v %v", rm.Panicked, rt.Panicked)
+							return
+						}
+						if okMain != okTwin || okMain != okFresh {
+							e.Violate("decision-depends-on-history", site, "tokens of %s presented by %s: cached instance=%v, cache-less twin=%v, fresh instance=%v", a, b, okMain, okTwin, okFresh)
+							return
+						}
+						if okMain != same {
+							e.Violate("identity-binding", site, "tokens of %s presented by %s: accepted=%v, expected %v (status %d)", a, b, okMain, same, rm.Status)
+							return
+						}
+					case 2: // sticky session token of A presented by B
+						sim.Fault("cross-identity-session-token")
+						ok, resp := useSession(cl.Inst[0], tk.session, b)
+						sample = append(sample, fmt.Sprintf("A=%s B=%s session accepted=%v", a, b, ok))
+						if resp.Panicked != nil {
+							e.Violate("panic", "session-token", "panic: %v", resp.Panicked)
+							return
+						}
+						if ok != same {
+							e.Violate("identity-binding", "session-token", "session of %s presented by %s: resolved=%v, expected %v", a, b, ok, same)
+							return
+						}
+					case 3: // kind confusion, presented by the rightful owner
+						sim.Fault("kind-confusion")
+						type kc struct {
+							name         string
+							cursor, call string
+						}
+						variants := []kc{
+							{"call-as-cursor", tk.call, tk.call},
+							{"cursor-as-call", tk.cursor, tk.cursor},
+							{"session-as-cursor", tk.session, tk.call},
+							{"session-as-call", tk.cursor, tk.session},
+							// the same, with the leading version byte rewritten to the
+							// one the slot expects (the version byte is not sealed)
+							{"cursor-retagged-as-call", tk.cursor, retag(tk.cursor, tk.call)},
+							{"call-retagged-as-cursor", retag(tk.call, tk.cursor), tk.call},
+						}
+						v := variants[tp.Draw(len(variants))]
+						inst := cl.Twin // the call slot is only consulted without a cache hit
+						if v.name == "call-as-cursor" || v.name == "session-as-cursor" || v.name == "call-retagged-as-cursor" {
+							inst = cl.Inst[0]
+						}
+						ok, resp := cont(inst, tk, v.cursor, v.call, a)
+						sample = append(sample, fmt.Sprintf("A=%s %s accepted=%v", a, v.name, ok))
+						if resp.Panicked != nil {
+							e.Violate("panic", "kind/"+v.name, "panic: %v", resp.Panicked)
+							return
+						}
+						if ok {
+							e.Violate("kind-confusion", "kind/"+v.name, "%s accepted for owner %s (status %d)", v.name, a, resp.Status)
+							return
+						}
+						// a cursor or call token in the VGI-Session header
+						other := tk.cursor
+						if tp.Bool(1, 2) {
+							other = tk.call
+						}
+						if ok2, r2 := useSession(cl.Inst[0], other, a); ok2 || r2.Panicked != nil {
+							e.Violate("kind-confusion", "kind/stream-token-as-session", "a stream token resolved a sticky session for %s (panic=%v)", a, r2.Panicked)
+							return
+						}
+					}
+					// a token from an earlier round, by a third identity, after other identities used the server
+					if len(pool) > 1 && tp.Bool(1, 3) && !e.Violated() {
+						old := pool[tp.Draw(len(pool)-1)]
+						c := c13Idents[tp.Draw(len(c13Idents))]
+						ok, _ := cont(cl.Inst[0], old, old.cursor, old.call, c)
+						okT, _ := cont(cl.Twin, old, old.cursor, old.call, c)
+						if ok != (c == old.owner) || ok != okT {
+							e.Violate("identity-binding", "stream-token", "older tokens of %s presented by %s: cached=%v twin=%v expected %v", old.owner, c, ok, okT, c == old.owner)
+							return
+						}
 					}
 				}
-				// a token from an earlier round, by a third identity, after other identities used the server
-				if len(pool) > 1 && tp.Bool(1, 3) && !e.Violated() {
-					old := pool[tp.Draw(len(pool)-1)]
-					c := c13Idents[tp.Draw(len(c13Idents))]
-					ok, _ := cont(cl.Inst[0], old, old.cursor, old.call, c)
-					okT, _ := cont(cl.Twin, old, old.cursor, old.call, c)
-					if ok != (c == old.owner) || ok != okT {
-						e.Violate("identity-binding", "stream-token", "older tokens of %s presented by %s: cached=%v twin=%v expected %v", old.owner, c, ok, okT, c == old.owner)
-						return
-					}
-				}
-			}
-		})
+			})
+		}
 		reason, _ := sim.Run(simkern.RunOpts{MaxSteps: 200000, Done: sim.RootsDone})
 		cl.Shutdown(sim)
 		e.Conclude(sim, reason, false)
@@ -289,7 +316,7 @@ func init() {
 		Real:  []string{"vgirpc.HttpServer token AAD binding (cursor, call, sticky session), call-state cache keying, sticky registry partitioning"},
 		Stub:  []string{"HTTP transport", "authenticator mapping an identity header to AuthContext", "scripted handlers"},
 		Quick: 600, Thorough: 60000,
-		Warm: warmHTTP, FaultKinds: []string{"cross-identity-stream-token", "cross-identity-session-token", "kind-confusion", "instance-restart"},
+		Warm: warmHTTP, FaultKinds: []string{"cross-identity-stream-token", "cross-identity-session-token", "kind-confusion", "instance-restart", "evicted-then-foreign-call-token"},
 		Assumptions: []string{"auth domains contain no NUL (operator-chosen scheme names), as the property states"},
 	}
 }
